@@ -506,10 +506,13 @@ func fixedCorpus() []entry {
 			return hd + "Content-Length: 5\r\nTransfer-Encoding: " + v + "\r\n\r\nhello" + fo
 		})...)
 	}
-	for _, v := range []string{"gzip", "deflate", "compress", "chunked, gzip", "xchunked", "chunkedx", "chunk", "cow", "chunked;q=1"} {
+	// a coding list whose other members the parser does not implement is unsupported as well:
+	// accepting it as plain chunked hands the still-encoded bytes to the handler (a guess)
+	for _, v := range []string{"gzip", "deflate", "compress", "chunked, gzip", "xchunked", "chunkedx", "chunk", "cow", "chunked;q=1", "gzip, chunked", "deflate, gzip, chunked", "x, Chunked ", "gzip,chunked"} {
 		te("unsupported-transfer-encoding", "error", v)
 	}
-	for _, v := range []string{"identity", "gzip, chunked", "chunked, chunked", "", "\"chunked\""} {
+	te("repeated-transfer-encoding", "error", "chunked, chunked")
+	for _, v := range []string{"identity", "identity, chunked", "", "\"chunked\""} {
 		te("borderline-transfer-encoding", "observe", v)
 	}
 	for _, pair := range [][2]string{{"chunked", "chunked"}, {"gzip", "chunked"}, {"chunked", "gzip"}, {"chunked", "identity"}, {"identity", "chunked"}} {
